@@ -330,6 +330,7 @@ async fn ns_flow(log: &mut Log, st: &mut Stats, rng: &mut Rng) {
 struct HsLink {
     ida: u64,
     idb: u64,
+    nonce: u64,
     open_a: bool,
     open_b: bool,
     auth_a: bool,
@@ -340,9 +341,14 @@ struct HsWorld {
     ls: Vec<HsLink>,
     pa: NodeStateProbe,
     pb: NodeStateProbe,
+    name_a: String,
+    name_b: String,
 }
 
-const HS_KINDS: [&str; 6] = ["hauthA", "hauthB", "hpreA", "hpreB", "hseeA", "hseeB"];
+/// kinds 6/7 (`hpsA`/`hpsB`): the pre-authentication check as the SESSION performs it —
+/// `CheckSession` with the peer's name and this connection's nonce (`check_session`), which looks
+/// the candidate up by (name, nonce) first and answers `NoOtherConnection` when that is ambiguous
+const HS_KINDS: [&str; 8] = ["hauthA", "hauthB", "hpreA", "hpreB", "hseeA", "hseeB", "hpsA", "hpsB"];
 
 impl HsWorld {
     /// returns the world and the `hs` op line describing it (with the real pids)
@@ -357,9 +363,9 @@ impl HsWorld {
             pa.register(ida, b, *nonce);
             pb.register(idb, a, *nonce);
             desc.push(format!("{a_init}:{nonce}:{ida}:{idb}"));
-            ls.push(HsLink { ida, idb, open_a: true, open_b: true, auth_a: false, auth_b: false });
+            ls.push(HsLink { ida, idb, nonce: *nonce, open_a: true, open_b: true, auth_a: false, auth_b: false });
         }
-        (Self { ls, pa, pb }, format!("hs {a} {b} {}", desc.join(",")))
+        (Self { ls, pa, pb, name_a: a.to_string(), name_b: b.to_string() }, format!("hs {a} {b} {}", desc.join(",")))
     }
 
     /// a connection dialled while the run is under way (also after a link is up): a fresh,
@@ -369,7 +375,7 @@ impl HsWorld {
         let idb = self.pb.open(a_init).await;
         self.pa.register(ida, b, nonce);
         self.pb.register(idb, a, nonce);
-        self.ls.push(HsLink { ida, idb, open_a: true, open_b: true, auth_a: false, auth_b: false });
+        self.ls.push(HsLink { ida, idb, nonce, open_a: true, open_b: true, auth_a: false, auth_b: false });
         format!("hdial {a_init}:{nonce}:{ida}:{idb}")
     }
 
@@ -435,6 +441,18 @@ impl HsWorld {
                 if open && !auth && p.check_candidate(id) == "otherContinues" {
                     st.bump("hs_pre_closed");
                     closed.push(id);
+                }
+            }
+            6 | 7 => {
+                let peer = if on_a { self.name_b.clone() } else { self.name_a.clone() };
+                let nonce = self.ls[i].nonce;
+                if open && !auth {
+                    let r = p.check_session(&peer, nonce);
+                    st.bump(&format!("hs_checks_{r}"));
+                    if r == "otherContinues" || r == "duplicate" {
+                        st.bump("hs_pre_closed");
+                        closed.push(id);
+                    }
                 }
             }
             _ => {
@@ -507,7 +525,7 @@ async fn hs_case(log: &mut Log, st: &mut Stats, rng: &mut Rng) {
     let steps = rng.range(0, 5 * n as u64);
     for _ in 0..steps {
         let i = rng.below(n as u64) as usize;
-        let kind = *rng.pick(&[0usize, 0, 0, 1, 1, 1, 2, 3, 4, 4, 5, 5]);
+        let kind = *rng.pick(&[0usize, 0, 0, 1, 1, 1, 2, 3, 6, 6, 7, 7, 4, 4, 5, 5]);
         let op = w.exec(kind, i, st);
         st.bump("hs_step");
         log.rec(op, w.obs());
@@ -542,7 +560,7 @@ async fn hs_case(log: &mut Log, st: &mut Stats, rng: &mut Rng) {
                     st.bump("hs_fail");
                     log.rec(op, w.obs());
                 } else {
-                    let kind = *rng.pick(&[0usize, 0, 0, 1, 1, 1, 2, 3, 4, 4, 5, 5]);
+                    let kind = *rng.pick(&[0usize, 0, 0, 1, 1, 1, 2, 3, 6, 6, 7, 7, 4, 4, 5, 5]);
                     let op = w.exec(kind, i, st);
                     st.bump("hs_step");
                     log.rec(op, w.obs());
